@@ -1032,6 +1032,139 @@ def _str_consts(t):
     return [a.get('disp', '').strip('"') for a in t['args'] if a['k'] == 'const' and 'str' in a.get('ty', '')]
 
 
+def rule_placeholder_variants_not_deserialisable(ctx, cfg='prod-all', scope=('schemes::generics::',)):
+    """The scheme enums have a placeholder variant (`_Unreachable(PhantomData<S>)`) that exists for the type system only; every accessor
+    panics on it ("Cannot happen!").  It must not be constructible from serialised data: the variant names the Deserialize impl of each enum
+    recognises do not contain it."""
+    prog = ctx.prog(cfg)
+    n = 0
+    for ty, adt in sorted(prog.adts.items()):
+        if not ty.startswith(scope) or adt['kind'] != 'Enum':
+            continue
+        ph = [v['name'] for v in adt['variants'] if v['name'].startswith('_')]
+        if not ph:
+            continue
+        marker = "Deserialize<'de> for %s" % ty
+        names = set()
+        found = False
+        for bj in prog.j['bodies']:
+            if marker not in bj['path']:
+                continue
+            found = True
+            for blk in bj['blocks']:
+                for st in blk['stmts']:
+                    if st['k'] == 'assign':
+                        rv = st['rv']
+                        for o in [rv.get('op'), rv.get('a'), rv.get('b')] + list(rv.get('ops') or []):
+                            if isinstance(o, dict) and o.get('k') == 'const' and 'str' in str(o.get('ty', '')):
+                                names.add(str(o.get('disp', '')).strip('"'))
+                t = blk['term']
+                if t['k'] == 'call':
+                    for o in t['args']:
+                        if o.get('k') == 'const' and 'str' in str(o.get('ty', '')):
+                            names.add(str(o.get('disp', '')).strip('"'))
+            for pr in bj.get('promoted', []):
+                for c in pr.get('consts', []):
+                    if 'str' in str(c.get('ty', '')):
+                        names.add(str(c.get('disp', '')).strip('"'))
+        if not found:
+            continue
+        n += 1
+        hit = sorted(x for x in names if any(x == v or x.strip('b"') == v for v in ph))
+        yield Ob('RF-N', '%s#placeholder-not-deserialisable' % ty, not hit,
+                 'the placeholder variant of the enum is not among the variant names its Deserialize impl recognises', adt['span'],
+                 fact={'placeholder_variants': ph, 'recognised': hit, 'names_seen': len(names)}, expected='not recognised')
+    yield Ob('RF-N', 'crate#placeholder-variants', n >= 3, 'enums with a placeholder variant and a Deserialize impl', '', fact=n, expected='>= 3', nontrivial=False)
+
+
+SERDE_CHECKED = {
+    # type: {kind: how many of its fields the octet decoder refuses a value of (identity point / zero scalar)}
+    'bbsplus::keys::BBSplusPublicKey': {'G2Projective': 1},
+    'bbsplus::keys::BBSplusSecretKey': {'Scalar': 1},
+    'bbsplus::signature::BBSplusSignature': {'G1Projective': 1, 'Scalar': 1},
+    'bbsplus::proof::BBSplusPoKSignature': {'G1Projective': 3},
+}
+
+
+def rule_serde_checked_decoders(ctx, cfg='prod-all'):
+    """The serde form of a key, a signature or a proof is a decoder like `from_bytes`: what the octet decoder refuses (the identity as public key,
+    signature point or proof point, a zero signature exponent, a zero secret key) the Deserialize impl must refuse as well.  Decided on the derive
+    output: in every visitor method that builds the type (`visit_seq`, `visit_map`, `visit_newtype_struct`), at least as many fields of each kind
+    are read through a local helper whose success is gated by the identity / zero test as the table lists.  (Which helper reads which field is
+    not decided: the count per kind is.)"""
+    from mir import Body
+    from rf_gates import eval_requirement, gate_is_comparison
+    prog, eng, ga = ctx.prog(cfg), ctx.eng(cfg), ctx.gates(cfg)
+    checked = {}
+
+    def helper_kind(path):
+        """'G1Projective' / 'G2Projective' / 'Scalar' when `path` is a local function returning Result<that type, _> whose every success
+        return is dominated by an identity / zero test of the value it returns"""
+        if path in checked:
+            return checked[path]
+        checked[path] = None
+        b = prog.bodies.get(path)
+        if b is None or b.from_expansion or b.kind == 'Closure':
+            return None
+        rty = b.local_ty(0)
+        kind = None
+        for k in ('G1Projective', 'G2Projective', 'Scalar'):
+            if rty.startswith('std::result::Result<') and rty[len('std::result::Result<'):].split(',')[0].strip().endswith(k):
+                kind = k
+        if kind is None:
+            return None
+        aps = ga.accept_paths(path)
+        ok = bool(aps)
+        for ap in aps:
+            hit = False
+            for g in ap['gates']:
+                if not g.dom:
+                    continue
+                w = g.what or ''
+                if g.kind == 'call' and (w.endswith('::is_identity') or w.endswith('::is_zero')):
+                    hit = True
+                if g.kind == 'call' and 'PartialEq' in w and any(str(a[1]).split('::')[-1] in ('IDENTITY', 'ZERO') for a in g.all_atoms() if a[0] in ('a', 'c')):
+                    hit = True
+            ok = ok and hit
+        checked[path] = kind if ok else None
+        return checked[path]
+
+    n = 0
+    for ty, need in sorted(SERDE_CHECKED.items()):
+        if ty not in prog.adts:
+            raise AnchorMissing(ty)
+        marker = "Deserialize<'de> for %s>" % ty
+        per_method = {}
+        for bj in prog.j['bodies']:
+            p = bj['path']
+            if marker not in p:
+                continue
+            meth = None
+            for m in ('visit_seq', 'visit_map', 'visit_newtype_struct'):
+                if '::%s' % m in p:
+                    meth = m
+            if meth is None:
+                continue
+            b = Body(bj, prog)
+            cnt = per_method.setdefault(meth, {})
+            for bi, t in b.calls():
+                tg = local_target(eng, t)
+                k = helper_kind(tg) if tg else None
+                if k:
+                    cnt[k] = cnt.get(k, 0) + 1
+        if not per_method:
+            yield Ob('RF-D', '%s#serde-decoder' % ty, False, 'no Deserialize visitor found for the type', prog.adts[ty]['span'], fact=0, expected='derive output')
+            continue
+        for kind, k in sorted(need.items()):
+            n += 1
+            short = {m: c.get(kind, 0) for m, c in sorted(per_method.items())}
+            ok = all(v >= k for v in short.values())
+            yield Ob('RF-D', '%s#serde-checked:%s' % (ty, kind), ok,
+                     'the serde decoder reads every %s field the octet decoder restricts through a helper gated by the same identity / zero test' % kind,
+                     prog.adts[ty]['span'], fact={'fields_read_through_a_checked_helper': short, 'required': k}, expected='>= %d in every visitor method' % k)
+    yield Ob('RF-D', 'crate#serde-checked-decoders', n >= 5, 'restricted field kinds examined', '', fact=n, expected='>= 5', nontrivial=False)
+
+
 def rule_serde_symmetry(ctx, cfg='prod-all', scope=('bbsplus::keys::', 'bbsplus::signature::', 'bbsplus::proof::', 'bbsplus::commitment::', 'bbsplus::blind::',
                                                      'keys::pair::', 'schemes::generics::', 'utils::message::bbsplus_message'), min_types=12):
     """for every type whose Serialize and Deserialize impls are compiled into the crate (derive output is analysed after expansion, so
